@@ -407,8 +407,17 @@ RetStep(m, ev) ==
         ELSE Good(m)
     ELSE IF m.kind = "slc" /\ api \in {"read", "write"} THEN
         LET c == SlcRet(m, ev) IN IF c = "" THEN Good(m) ELSE Bad(m, c)
-    ELSE LET r == LxRet(m.lx, m.call, ev) IN
-         IF r.fail # "" THEN Bad(m, r.fail) ELSE Good([m EXCEPT !.lx = r.lx])
+    ELSE LET r == LxRet(m.lx, m.call, ev)
+             \* what open() leaves in the `info` / `name` properties: the identity and the program name of the controller
+             viewed == m.lx.on /\ api \in {"open", "enter"} /\ Has(ev, "view") /\ ev.outcome = "value" /\ ev.faulted = 0 /\ Has(ev.view, "info")
+             ic == IF viewed /\ ~Has(m.ident, "none") THEN IdentityClause(m.ident, ev.view.info, FALSE) ELSE ""
+         IN
+         IF r.fail # "" THEN Bad(m, r.fail)
+         ELSE IF ic # "" THEN Bad(m, ic \o "+C05:info")
+         ELSE IF viewed /\ ev.view.plcname # MkS(m.lx.P.name)
+                 /\ ~(~Has(m.ident, "none") /\ Len(m.ident.name) >= 4 /\ SubSeq(m.ident.name, 1, 4) = <<50, 48, 56, 48>>)      \* Micro800 ("2080-..."): the name is not fetched
+              THEN Bad(m, "C14:reply-decode+C05:plc-name")
+         ELSE Good([m EXCEPT !.lx = r.lx])
 
 (* ------------------------------------------------------------------------------------------------------------ *)
 Step(m, ev) ==
